@@ -36,8 +36,14 @@ VerdictA(p, e, s) ==
          ELSE V("unit-conversion-not-correctly-rounded", [q |-> Show(x.q), s |-> x.s], [q |-> Show(NFromBytesBE(e.r.mant)), s |-> e.r.exp])
     [] e.op = "RoundTrip" ->
          \* NewAmount(a.ToBCH()) = a
-         IF (e.back.neg = e.a.neg /\ e.back.abs = e.a.abs) \/ (NIsZero(AbsOf(e.a)) /\ NIsZero(AbsOf(e.back))) THEN OK
-         ELSE V("bch-round-trip", Show(AbsOf(e.a)), Show(AbsOf(e.back)))
+         IF ~((e.back.neg = e.a.neg /\ e.back.abs = e.a.abs) \/ (NIsZero(AbsOf(e.a)) /\ NIsZero(AbsOf(e.back))))
+           THEN V("bch-round-trip", Show(AbsOf(e.a)), Show(AbsOf(e.back)))
+         \* ToBCH() itself is the correctly rounded a / 10^8 (the same value ToUnit(AmountBCH) gives)
+         ELSE IF "r" \in DOMAIN e THEN
+                LET x == ToUnitAbs(AbsOf(e.a), 8) IN
+                IF e.r.cls = "fin" /\ DyEq(FDy(e.r), x) /\ (NIsZero(x.q) \/ e.r.neg = e.a.neg) THEN OK
+                ELSE V("to-bch-not-correctly-rounded", [q |-> Show(x.q), s |-> x.s], [q |-> Show(NFromBytesBE(e.r.mant)), s |-> e.r.exp])
+         ELSE OK
     [] e.op = "Format" ->
          LET sp == IndexOf(e.text, 32)
              num == IF sp = 0 THEN e.text ELSE SubSeq(e.text, 1, sp - 1)
